@@ -133,6 +133,21 @@ def rule_exit(chk, qa):
     sent, _ = sentinel(chk, qa)
     gets = [(n, c) for n in cfg.live for c, m in calls_in_node(n) if isinstance(c.func, ast.Attribute) and is_queue(rd, c.func.value, qa)
             and c.func.attr in ("get", "get_nowait")]
+    if not gets:
+        # the reader draws its items from an iterator kept on the instance
+        for x in iter_own_nodes(rd.node):
+            if isinstance(x, (ast.For,)) and common.is_self_attr(x.iter):
+                attr = x.iter.attr
+                for m_ in set(rd.cls.methods.values()):
+                    if m_ is rd:
+                        continue
+                    for y in iter_own_nodes(m_.node):
+                        if isinstance(y, ast.Assign) and any(common.is_self_attr(t_, attr) for t_ in y.targets) and isinstance(y.value, ast.Call) \
+                                and isinstance(y.value.func, ast.Name) and y.value.func.id == "iter" and len(y.value.args) == 2:
+                            chk.bad("C19.exit", "ThreadedWriter._reader:leaves-only-on-the-sentinel", chk.where(m_, y.lineno),
+                                    "the reader iterates self.%s = %s created in %s, i.e. once per writer and not once per reader thread: after the first stop the iterator is exhausted, "
+                                    "so every later start/stop cycle writes nothing and stopService completes with messages unwritten" % (attr, unparse(y.value)[:50], m_.name))
+                            raise AnalysisError("_reader: items come from a per-instance iterator")
     chk.need(gets, "_reader no longer reads the queue")
     problems = []
     itemvars = set()
